@@ -73,6 +73,7 @@ void md_case(Ctx &c) {
         mc.family = c.given->one_str("family", "spec");
     } else {
         int fam = int(r.below(6));
+        if (r.chance(1, 40)) fam = 6;
         size_t n;
         T u; // coordinates drawn from [0, u]
         auto rnd_pt = [&](T lim) {
@@ -133,6 +134,15 @@ void md_case(Ctx &c) {
                     if (r.chance(1, 10)) p[(ax + 1) % D] = T(r.below(uint64_t(u) + 1));
                     mc.pts.push_back(p);
                 }
+                break;
+            }
+            case 6: { // >= 2^15 points: the inner index is built by the chunked, multi-threaded builder (thread count = this
+                // worker's OMP_NUM_THREADS); a coarse grid, so that every cell is stored many times and runs of equal codes
+                // start at, end at and straddle the chunk boundaries
+                mc.family = "big_dense_grid";
+                u = std::min<T>(maxc, T((T(1) << (3 + r.below(4))) - 1));
+                n = (size_t(1) << 15) + r.below(size_t(1) << 15);
+                for (size_t i = 0; i < n; ++i) mc.pts.push_back(rnd_pt(u));
                 break;
             }
             default: { // tiny point sets
